@@ -221,7 +221,10 @@ impl DigestAuthenticator {
         let uri = request_parts.line.uri.print_ctx(ctx).to_string();
 
         // enforce qop when enabled (See RFC8760 Section 2.6)
-        if challenge.qop.is_empty() && self.enforce_qop {
+        //
+        // A -sess algorithm puts the cnonce into HA1, it can only be verified when the cnonce is
+        // transmitted, which happens as part of the qop parameters
+        if challenge.qop.is_empty() && (self.enforce_qop || is_session) {
             challenge.qop.push(QopOption::Auth)
         }
 
